@@ -303,6 +303,7 @@ class Driver:
                 pr = st.get("pr", {}).get(str(self.rank))
                 if pr:
                     a.update(pr)
+                    a = {k_: v_ for k_, v_ in a.items() if v_ is not None}   # None in an override removes the key
                 if self.jitter > 0:
                     time.sleep(self.rng.random() * self.jitter)
                 self.cur = dict(op=op, **a)
@@ -652,6 +653,8 @@ class Driver:
         if not flex:
             return list(range(n)), n, None, None, None
         lay = flex.get("layout", "contig")
+        if n == 0 and lay not in ("contig", "ignore"):
+            lay = "contig"     # a derived type always describes at least one element
         mpi = L.mpi
         new = c_void_p()
         if lay == "contig":
@@ -685,7 +688,7 @@ class Driver:
             sizes = (c_int * 2)(3, n + 2)
             sub = (c_int * 2)(1, max(n, 1))
             st = (c_int * 2)(1, 1)
-            mpi.MPI_Type_create_subarray(2, sizes, sub, st, 56, et, byref(new))  # 56 = MPI_ORDER_C
+            mpi.MPI_Type_create_subarray(2, sizes, sub, st, 0, et, byref(new))  # 0 = MPI_ORDER_C (Open MPI)
             pos, total, cnt, dt, fr = [(n + 2) + 1 + i for i in range(n)], 3 * (n + 2), 1, new, new
         elif lay == "resized":      # n copies of an element type whose extent is two elements
             mpi.MPI_Type_create_resized(et, ctypes.c_long(0), ctypes.c_long(2 * sizeof(ct)), byref(new))
@@ -727,7 +730,7 @@ class Driver:
             return L.dt_null if a.get("nullft") else et, None
         if not isrec:
             L.mpi.MPI_Type_create_subarray(nd.value, (c_int * nd.value)(*shape), (c_int * nd.value)(*count),
-                                           (c_int * nd.value)(*start), 56, et, byref(new))
+                                           (c_int * nd.value)(*start), 0, et, byref(new))
             L.mpi.MPI_Type_commit(byref(new))
             return new, new
         rs = c_longlong()
@@ -738,7 +741,7 @@ class Driver:
             sub = c_void_p()
             L.mpi.MPI_Type_create_subarray(nd.value - 1, (c_int * (nd.value - 1))(*shape[1:]),
                                            (c_int * (nd.value - 1))(*count[1:]), (c_int * (nd.value - 1))(*start[1:]),
-                                           56, et, byref(sub))
+                                           0, et, byref(sub))
             inner, fr_inner = sub, sub
         hv = c_void_p()
         L.mpi.MPI_Type_create_hvector(count[0], 1, ctypes.c_long(rs.value), inner, byref(hv))
@@ -777,7 +780,7 @@ class Driver:
             buf.set(pos, vals)
         prefix = {"blocking": rw, "i": "i" + rw, "b": "bput"}[kind]
         name = "ncmpi_%s_%s" % (prefix, form)
-        if not flex:
+        if not flex and form != "vard":
             name += "_" + ITYPES[it][2]
         if coll and kind == "blocking":
             name += "_all"
@@ -836,6 +839,7 @@ class Driver:
         else:
             lab = a.get("req")
             out["id"] = "NULL" if req.value == -1 else req.value
+            out["isnull"] = req.value == -1
             if lab is not None:
                 self.ctx.reqs[lab] = dict(id=req.value, orig=req.value, buf=buf, pos=pos, kind=kind, rw=rw,
                                           snap=before, fr=fr, keep=keep, posted=(e == 0 or req.value not in (-777,)))
@@ -879,7 +883,7 @@ class Driver:
         out["bufsame"] = s
 
     def _waitlike(self, a, fn):
-        reqs = a.get("reqs", "ALL")
+        reqs = a.get("special", a.get("reqs", "ALL"))
         if isinstance(reqs, str):
             num, arr, stt = REQ_SPECIAL[reqs], None, None
             e = fn(self.ncid(a), num, None, None)
@@ -891,6 +895,7 @@ class Driver:
             stt = (c_int * max(1, len(ids)))(*([-999] * len(ids)))
             e = fn(self.ncid(a), num, arr, None if a.get("nostatus") else stt)
             out = {"ids": ["NULL" if arr[i] == -1 else arr[i] for i in range(len(ids))],
+                   "allnull": all(arr[i] == -1 for i in range(len(ids))),
                    "st": [self.L.errname(stt[i]) if stt[i] != -999 else "UNSET" for i in range(len(ids))]}
             for i, r in enumerate(reqs):
                 if isinstance(r, str) and r in self.ctx.reqs:
